@@ -15,8 +15,8 @@ import (
 	"math/big"
 	"os"
 	"regexp"
-	"strings"
 	"sort"
+	"strings"
 	"time"
 
 	"verifharness/internal/h"
@@ -47,7 +47,7 @@ func cwSetParams(rg cwRegime) {
 	params.LockupByteToBlockDepth[1] = 5
 	params.LockupByteToBlockDepth[2] = 7
 	params.LockupByteToBlockDepth[3] = 9
-	params.ConversionLockPeriod = 2
+	params.ConversionLockPeriod = 3 // as in production: equal to the shortest lockup depth (conversions are redeemed by the same look-back)
 	params.CoinbaseEpochBlocks = 6
 	params.ControllerKickInBlock = 0
 	params.CoinbaseLockupPrecompileKickInHeight = 0
@@ -144,8 +144,34 @@ func cwQiKeys(n int) (qi []utKey) {
 	return
 }
 
+func cwAllAllocs() (struct{}, []params.GenesisAccount) {
+	_, a := cwAccounts()
+	_, b := cwWatch()
+	return struct{}{}, append(a, b...)
+}
+
+// cwWatch: Quai addresses of zone 0-0 that never send a transaction; they exist from block 1 on (1 wei each), so a
+// payout never pays the account-creation fee and their balance is exactly what the chain paid out to them
+func cwWatch() (out []common.Address, allocs []params.GenesisAccount) {
+	for i := 0; len(out) < 3; i++ {
+		b := crypto.Keccak256([]byte("qvh-watch"), big.NewInt(int64(i)).Bytes())[:20]
+		b[0] = 0
+		addr := common.BytesToAddress(b, common.Location{0, 0})
+		if _, err := addr.InternalAndQuaiAddress(); err != nil {
+			continue
+		}
+		out = append(out, addr)
+		sched := orderedmap.New[uint64, *big.Int]()
+		sched.Set(0, big.NewInt(1))
+		allocs = append(allocs, params.GenesisAccount{Address: addr, Award: big.NewInt(1), Vested: big.NewInt(1), BalanceSchedule: sched})
+	}
+	return
+}
+
 func newWorld(db ethdb.Database, rc *h.Rng, rg cwRegime, opts zoneOpts) (*cwWorld, error) {
 	quai, allocs := cwAccounts()
+	_, wallocs := cwWatch()
+	allocs = append(allocs, wallocs...)
 	opts.allocs = allocs
 	node, err := newZoneNode(db, opts)
 	if err != nil {
@@ -169,7 +195,16 @@ func (w *cwWorld) etxHash() common.Hash {
 }
 
 func (w *cwWorld) randQuaiAddr() common.Address { return w.quai[w.rc.Intn(len(w.quai))].addr }
-func (w *cwWorld) randQiAddr() common.Address   { return w.qi[w.rc.Intn(len(w.qi))].addr }
+
+// rewardAddr: a Quai address to pay a reward to - often one of the watch-only addresses
+func (w *cwWorld) rewardAddr() common.Address {
+	if w.rc.Chance(50) {
+		ws, _ := cwWatch()
+		return ws[w.rc.Intn(len(ws))]
+	}
+	return w.randQuaiAddr()
+}
+func (w *cwWorld) randQiAddr() common.Address { return w.qi[w.rc.Intn(len(w.qi))].addr }
 
 // cwQiAmount: a Qi amount in qits with an interesting denomination decomposition
 func (w *cwWorld) qiAmount() *big.Int {
@@ -210,14 +245,14 @@ func (w *cwWorld) synthInbound(blkNum uint64) types.Transactions {
 	}
 	for i := 0; i < n; i++ {
 		lock := byte(rc.Intn(4))
-		kind := rc.Intn(9)
+		kind := []int{0, 0, 1, 2, 3, 4, 5, 5, 6, 7, 8}[rc.Intn(11)] // Quai coinbases and Qi->Quai conversions a little more often
 		if w.rg.preTx || blkNum < params.TimeToStartTx {
 			// blocks of the early chain have gas limit 0: only coinbase ETXs (which draw no gas) can exist there
 			kind = rc.Intn(3)
 		}
 		switch kind {
 		case 0: // Quai coinbase
-			to := w.randQuaiAddr()
+			to := w.rewardAddr()
 			add("cb-quai", &types.ExternalTx{OriginatingTxHash: w.etxHash(), ETXIndex: uint16(i), Gas: params.TxGas, To: &to, Value: big.NewInt(1e15 + int64(rc.Intn(1e9))), Data: w.coinbaseData(lock), Sender: to, EtxType: types.CoinbaseType})
 		case 1, 2: // Qi coinbase
 			to := w.randQiAddr()
@@ -227,7 +262,7 @@ func (w *cwWorld) synthInbound(blkNum uint64) types.Transactions {
 			gas := params.TxGas + uint64(rc.Intn(12))*params.CallValueTransferGas
 			add("conv-to-qi", &types.ExternalTx{OriginatingTxHash: w.etxHash(), ETXIndex: uint16(i), Gas: gas, To: &to, Value: w.qiAmount(), Sender: from, EtxType: types.ConversionType})
 		case 5: // Qi -> Quai conversion arriving
-			to, from := w.randQuaiAddr(), w.randQiAddr()
+			to, from := w.rewardAddr(), w.randQiAddr()
 			add("conv-to-quai", &types.ExternalTx{OriginatingTxHash: w.etxHash(), ETXIndex: uint16(i), Gas: params.TxGas * 2, To: &to, Value: big.NewInt(1e14 + int64(rc.Intn(1e9))), Sender: from, EtxType: types.ConversionType})
 		case 6: // reverted conversion: refunds
 			if rc.Bool() {
@@ -714,7 +749,7 @@ func (w *cwWorld) build() (*cwStep, error) {
 			n.nextData = append(n.nextData, w.randQuaiAddr().Bytes()...)
 		}
 	}
-	n.nextCoinbase = w.randQuaiAddr()
+	n.nextCoinbase = w.rewardAddr()
 	if rc.Chance(40) {
 		n.nextCoinbase = w.randQiAddr()
 	}
